@@ -44,6 +44,7 @@ let parse_op (t : string) : op =
                  paths_of_mask (int_of_string mask), n_of_string now, n_of_string lag)
   | ["R"; sid; k] -> OCtxRead (n_of_string sid, path_of_index (int_of_string k))
   | ["X"; sid; "o"] -> OCtxEnd (n_of_string sid, EOk)
+  | ["X"; sid; "s"] -> OCtxEnd (n_of_string sid, ESkip)
   | ["X"; sid; "f"] -> OCtxEnd (n_of_string sid, EFail)
   | ["X"; sid; "d"] -> OCtxEnd (n_of_string sid, EDrop)
   | ["B"; now; lag] -> OReportBegin (n_of_string now, n_of_string lag)
@@ -201,6 +202,12 @@ let spec_case (id : string) (toks : string list) : unit =
                (match find_ctx sid before.ctxs, List.find_opt (fun s -> N.eqb s.s_id sid) after.subs with
                 | Some x, Some s' -> if not (retry_ok x s') then flag k ("retry_same_content sub=" ^ string_of_n sid)
                 | _ -> ())
+           | OCtxEnd (sid, ESkip) ->
+               (* the implementation did not send the report (its answer 'f'): reported_at must not have moved *)
+               (match ob, find_ctx sid before.ctxs, List.find_opt (fun s -> N.eqb s.s_id sid) after.subs with
+                | Some false, Some x, Some s' ->
+                    if not (skip_ok x s') then flag k ("liveness_reference_moved sub=" ^ string_of_n sid)
+                | _ -> ())
            | OWake now ->
                List.iter (fun s ->
                  if not (expiry_ok s now) then flag k ("expiry sub=" ^ string_of_n s.s_id)) after.subs
@@ -294,11 +301,11 @@ let spec_u (id : string) (line : string) : unit =
                    (* a report that followed another one: same iteration if the model finds something reportable
                       with the iteration's stale values, else the reporter found nothing, purged and woke up again *)
                    let lag_it = N.sub (!g).evn !iter_evw in
-                   (match snd (step_gen true true None !g (OReportBegin (!iter_now, lag_it))) with
+                   (match snd (step_gen true true true None !g (OReportBegin (!iter_now, lag_it))) with
                     | USid (Some _) -> ()
                     | _ ->
-                        g := fst (step_gen true true None !g OPurge);
-                        g := fst (step_gen true true None !g (OWake now));
+                        g := fst (step_gen true true true None !g OPurge);
+                        g := fst (step_gen true true true None !g (OWake now));
                         iter_now := now; iter_evw := N.sub (!g).evn lag)
                | _ -> ());
               let o = (match o with
@@ -307,7 +314,7 @@ let spec_u (id : string) (line : string) : unit =
               let ob = (match ob with "t" -> Some true | "f" -> Some false | _ -> None) in
               let before = !g in
               (* the model's own prediction, from the monitor's state *)
-              let (pred, pout) = step_gen true true None before o in
+              let (pred, pout) = step_gen true true true None before o in
               (match ob, pout with
                | Some b, UBool pb -> if b <> pb then dflag k ("emitted:" ^ optext)
                | _ -> ());
@@ -355,6 +362,9 @@ let spec_u (id : string) (line : string) : unit =
       List.iter (fun t ->
         match String.split_on_char ':' t with
         | ["L"; sid; alive] -> if alive <> "1" && !viol = None then viol := Some ("established_subscription_gone sub=" ^ sid)
+        | ["P"; sid; rep; rx] ->
+            if int_of_string rep > int_of_string rx && !viol = None then
+              viol := Some (Printf.sprintf "liveness_reference_moved sub=%s reported_at=%s last_message=%s" sid rep rx)
         | ["F"; sid; k; dev; got] ->
             if not (learned_ok [(n_of_string dev, n_of_string got)]) && !viol = None then
               viol := Some (Printf.sprintf "change_never_reported sub=%s path=%s device=%s subscriber=%s" sid k dev got)
